@@ -95,8 +95,29 @@ def kani_cmd(target_dir, patterns, jobs, extra=None, exact=False):
     return cmd
 
 
+def crate_for_repo(crate_dir):
+    """the harness crates name /repo in their path dependencies; for a side run against another copy of the
+    repository (VERIF_REPO) a copy of the crate with rewritten paths is used"""
+    if C.REPO == "/repo":
+        return crate_dir
+    dst = os.path.join(C.CACHE, "sideruns", C.RUN or "x", "crate-" + os.path.basename(crate_dir))
+    if os.path.exists(dst):
+        shutil.rmtree(dst)
+    shutil.copytree(crate_dir, dst, ignore=shutil.ignore_patterns("target", ".cache"))
+    fix_relative_paths(os.path.join(dst, "Cargo.toml"), crate_dir)
+    with open(os.path.join(dst, "Cargo.toml")) as f:
+        txt = f.read()
+    with open(os.path.join(dst, "Cargo.toml"), "w") as f:
+        f.write(txt.replace('"/repo/', '"%s/' % C.REPO))
+    lock = os.path.join(C.REPO, "Cargo.lock")
+    if os.path.exists(lock):
+        shutil.copy(lock, os.path.join(dst, "Cargo.lock"))
+    return dst
+
+
 def run_group(crate_dir, target_dir, patterns, jobs=8, timeout=1500, extra=None, env_extra=None, mem_kb=14_000_000,
               log=None, exact=False):
+    crate_dir = crate_for_repo(crate_dir)
     env = C.env_offline(env_extra)
     # refresh the lock file from /repo (path dependencies resolve against it)
     lock_src = os.path.join(C.REPO, "Cargo.lock")
@@ -116,11 +137,16 @@ def concrete_playback_batch(crate_dir, harnesses, prop, env_extra=None, extra=No
     tests into a module of a scratch copy of the harness crate and execute them natively
     (`cargo kani playback`, dev and release).  Harness functions must be `pub`.
     Returns {harness: (reproduced: bool|None, replay_text, details)}."""
-    scratch = os.path.join(C.CACHE, "replay", prop, "crate")
+    scratch = os.path.join(C.CACHE, "replay" + ("-" + C.RUN if C.RUN else ""), prop, "crate")
     if os.path.exists(scratch):
         shutil.rmtree(scratch)
     shutil.copytree(crate_dir, scratch, ignore=shutil.ignore_patterns("target", ".cache"))
     fix_relative_paths(os.path.join(scratch, "Cargo.toml"), crate_dir)
+    if C.REPO != "/repo":
+        with open(os.path.join(scratch, "Cargo.toml")) as f:
+            txt = f.read()
+        with open(os.path.join(scratch, "Cargo.toml"), "w") as f:
+            f.write(txt.replace('"/repo/', '"%s/' % C.REPO))
     env = C.env_offline(env_extra)
     tdir = C.keyed_target_dir("kani-playback-" + os.path.basename(crate_dir), keep=2)
     base_cmd = ["cargo", "kani", "--target-dir", tdir, "--output-format", "terse", "--exact", "-Z", "concrete-playback",
